@@ -91,14 +91,26 @@ def parseItem (w : String) : Option (List Nat) :=
     | none => none
   else parseHex w
 
+/-- `is_write_ready` / `is_write_buf_full` / `is_write_buf_empty` as `r`/`f`/`e` or `-` -/
+def wrFlags (ws : Framed.WState) : String :=
+  (if Src.framedWriteReady ws.wbuf.length then "r" else "-") ++
+  (if Src.framedWriteFull ws.wbuf.length then "f" else "-") ++
+  (if ws.wbuf.isEmpty then "e" else "-")
+
+/-- calls of `poll_write`/`poll_flush`/`poll_shutdown`, the bytes on the wire, the bytes staged in the
+transport (accepted, not yet flushed), the write buffer, the three predicates on it -/
 def wrCounters (ws : Framed.WState) : String :=
-  s!"w={ws.nWrite} f={ws.nFlush} s={ws.nShutdown} out={showBytes ws.written} wb={showBytes ws.wbuf}"
+  s!"w={ws.nWrite} f={ws.nFlush} s={ws.nShutdown} out={showBytes ws.written} st={showBytes ws.staged} wb={showBytes ws.wbuf} is={wrFlags ws}"
 
 def wrAnswer (st : State) (r : Framed.WRes × Framed.WState) : State × String :=
   ({ st with ws := r.2 }, s!"{wresStr r.1} {wrCounters r.2}")
 
 def rdCounters (rs : Framed.RState) : String :=
-  s!"rd={rs.nRead} dec={rs.nDecode} eofc={rs.nDecodeEof} buf={showBytes rs.buf}"
+  s!"rd={rs.nRead} dec={rs.nDecode} eofc={rs.nDecodeEof} buf={showBytes rs.buf} e={if rs.buf.isEmpty then 1 else 0}"
+
+def parseSel (w : String) : Option CodecSel :=
+  if w == "lines" then some .lines else if w == "bytes" then some .bytes
+  else if w == "len" then some .len else none
 
 /-! ## C15: LinesCodec on a contiguous buffer -/
 
@@ -151,18 +163,38 @@ def step (st : State) (line : String) : State × String :=
       let ws := { st.ws with sscript := st.ws.sscript ++ es }
       ({ st with ws := ws }, s!"ok {ws.sscript.length}")
     | none => (st, "bad-op")
+  -- `send` = `Sink::start_send`, `write` = `Framed::write` (the same function)
   | ["send", it] => match parseItem it with
     | some item => wrAnswer st (Framed.wsend (encOf st.sel) item st.ws)
     | none => (st, "bad-op")
+  | ["write", it] => match parseItem it with
+    | some item => wrAnswer st (Framed.wsend (encOf st.sel) item st.ws)
+    | none => (st, "bad-op")
   | ["ready"] => wrAnswer st (Framed.wready st.ws)
+  -- `flush`/`close` = `Sink::poll_flush`/`poll_close`, `xflush`/`xclose` = `Framed::flush`/`close`
   | ["flush"] => wrAnswer st (Framed.wflush st.ws)
+  | ["xflush"] => wrAnswer st (Framed.wflush st.ws)
   | ["close"] => wrAnswer st (Framed.wclose st.ws)
+  | ["xclose"] => wrAnswer st (Framed.wclose st.ws)
+  -- codec swap (`into_map_codec` / `replace_codec` / `into_parts` + `from_parts`): flags and both
+  -- buffers are carried over, only the codec changes; `mapio` (`into_map_io`) changes nothing
+  | ["swap", c, via] => match parseSel c with
+    | some sel =>
+      if via == "map" || via == "replace" || via == "parts" then
+        ({ st with sel := sel }, s!"ok {rdCounters st.rs} {wrCounters st.ws}")
+      else (st, "bad-op")
+    | none => (st, "bad-op")
+  | ["mapio"] => (st, s!"ok {rdCounters st.rs} {wrCounters st.ws}")
+  -- `poll` = `Stream::poll_next`, `next` = `Framed::next_item` (the same function)
   | ["poll"] =>
+    let (o, rs) := Framed.pollNext (codecOf st.sel) st.rs
+    ({ st with rs := rs }, s!"{outStr o} {rdCounters rs}")
+  | ["next"] =>
     let (o, rs) := Framed.pollNext (codecOf st.sel) st.rs
     ({ st with rs := rs }, s!"{outStr o} {rdCounters rs}")
   | ["drain", n] => match n.toNat? with
     | some n =>
-      if n ≤ 100000 then
+      if n ≤ 10000 then
         let (os, rs) := Framed.pollN (codecOf st.sel) n st.rs
         ({ st with rs := rs }, s!"[{",".intercalate (os.map outStr)}] {rdCounters rs}")
       else (st, "bad-op")
